@@ -37,6 +37,13 @@ func TestSweep(t *testing.T) {
 				for _, op := range SingleOps {
 					Oracle.One(t, env, rec, "sweep", &Case{Op: op, T: tn, C: sh[0], F: sh[1], Window: win})
 				}
+				if !win {
+					for _, op := range FirstCallOps {
+						for C := 2; C <= 5; C++ {
+							Oracle.One(t, env, rec, "sweep", &Case{Op: op, T: tn, C: C, F: sh[1] + C})
+						}
+					}
+				}
 				us := []string{tn, "int8", "float64", "uint64"}
 				if env.Thorough() {
 					us = names
